@@ -6,7 +6,7 @@ else (a failed extraction is a broken proof obligation for the check).
 import ast
 import os
 
-from extract_lib import REPO, generator, write
+from extract_lib import REPO, generator, lean_str, write
 
 STORAGE_ATTRS = {"__storage", "_storage", "_Local__storage"}
 
@@ -252,10 +252,132 @@ def stack_proxy_test():
     return found[0]
 
 
+def _module_tree():
+    path = os.path.join(REPO, "src", "werkzeug", "local.py")
+    return ast.parse(open(path).read())
+
+
+def context_var_binders(tree):
+    """every statement anywhere in local.py that binds the name `ContextVar` (import, assignment, def,
+    class, global/nonlocal declaration, augmented assignment, for/with/except target, walrus)"""
+    out = []
+    for node in ast.walk(tree):
+        names = []
+        if isinstance(node, (ast.Import, ast.ImportFrom)):
+            names = [(a.asname or a.name).split(".")[0] for a in node.names]
+        elif isinstance(node, (ast.FunctionDef, ast.AsyncFunctionDef, ast.ClassDef)):
+            names = [node.name]
+            if not isinstance(node, ast.ClassDef):
+                a = node.args
+                names += [x.arg for x in a.posonlyargs + a.args + a.kwonlyargs + ([a.vararg] if a.vararg else []) + ([a.kwarg] if a.kwarg else [])]
+        elif isinstance(node, ast.Lambda):
+            a = node.args
+            names = [x.arg for x in a.posonlyargs + a.args + a.kwonlyargs + ([a.vararg] if a.vararg else []) + ([a.kwarg] if a.kwarg else [])]
+        elif isinstance(node, (ast.Global, ast.Nonlocal)):
+            names = list(node.names)
+        elif isinstance(node, ast.Name) and isinstance(node.ctx, (ast.Store, ast.Del)):
+            names = [node.id]
+        elif isinstance(node, ast.ExceptHandler) and node.name:
+            names = [node.name]
+        if "ContextVar" in names:
+            if isinstance(node, ast.ImportFrom) and node.module == "contextvars" and node.level == 0 and any(a.name == "ContextVar" and a.asname is None for a in node.names):
+                out.append("from contextvars import ContextVar")
+                continue
+            out.append(ast.unparse(node).split("\n")[0] if not isinstance(node, ast.Name) else f"{node.id} (store, line {node.lineno})")
+    return out
+
+
+def _store_of(stmt):
+    """the expression stored into the storage attribute by `stmt`, or None:
+    `self.<storage> = e` / `object.__setattr__(self, "<storage>", e)`"""
+    if isinstance(stmt, ast.Assign) and len(stmt.targets) == 1 and is_storage(stmt.targets[0]):
+        return stmt.value
+    if isinstance(stmt, ast.AnnAssign) and is_storage(stmt.target):
+        return stmt.value
+    if isinstance(stmt, ast.Expr) and isinstance(stmt.value, ast.Call):
+        c = stmt.value
+        if ast.unparse(c.func) == "object.__setattr__" and len(c.args) == 3 and not c.keywords and isinstance(c.args[0], ast.Name) and c.args[0].id == "self" and isinstance(c.args[1], ast.Constant) and c.args[1].value in STORAGE_ATTRS:
+            return c.args[2]
+    return None
+
+
+def _touches_storage_binding(node):
+    """does any statement under `node` (re)bind or delete the storage attribute of self?"""
+    for n in ast.walk(node):
+        if isinstance(n, ast.Attribute) and isinstance(n.ctx, (ast.Store, ast.Del)) and is_storage(n):
+            return True
+        if isinstance(n, ast.Call) and ast.unparse(n.func) in ("object.__setattr__", "object.__delattr__", "setattr", "delattr") and len(n.args) >= 2 and isinstance(n.args[1], ast.Constant) and n.args[1].value in STORAGE_ATTRS:
+            return True
+    return False
+
+
+def ctor_kind(cls_node, binders):
+    """the shape of `__init__`:  [docstring]  if context_var is None: context_var = <expr>
+                                 <store context_var into the storage attribute>
+    -> ('direct' | 'indirect', fn)"""
+    where = f"{cls_node.name}.__init__"
+    fns = [n for n in cls_node.body if isinstance(n, ast.FunctionDef) and n.name == "__init__"]
+    if len(fns) != 1:
+        raise Untranslatable(f"{where}: expected exactly one definition, found {len(fns)}")
+    fn = fns[0]
+    if fn.decorator_list:
+        raise Untranslatable(f"{where}: decorated")
+    params = [a.arg for a in fn.args.args]
+    if params != ["self", "context_var"] or fn.args.vararg or fn.args.kwarg or fn.args.kwonlyargs or fn.args.posonlyargs:
+        raise Untranslatable(f"{where}: unexpected parameters {ast.unparse(fn.args)}")
+    body = [s for s in fn.body if not (isinstance(s, ast.Expr) and isinstance(s.value, ast.Constant) and isinstance(s.value.value, str))]
+    if len(body) != 2:
+        raise Untranslatable(f"{where}: expected `if context_var is None: ...` followed by one store, found {len(body)} statements")
+    iff, store = body
+    if not (isinstance(iff, ast.If) and ast.unparse(iff.test) == "context_var is None" and not iff.orelse and len(iff.body) == 1):
+        raise Untranslatable(f"{where}: unexpected first statement: {ast.unparse(iff).splitlines()[0]}")
+    asg = iff.body[0]
+    if not (isinstance(asg, ast.Assign) and len(asg.targets) == 1 and isinstance(asg.targets[0], ast.Name) and asg.targets[0].id == "context_var"):
+        raise Untranslatable(f"{where}: unexpected default branch: {ast.unparse(asg)}")
+    stored = _store_of(store)
+    if not (isinstance(stored, ast.Name) and stored.id == "context_var"):
+        raise Untranslatable(f"{where}: the storage attribute is not bound to `context_var`: {ast.unparse(store)}")
+    e = asg.value
+    if not isinstance(e, ast.Call):
+        return "indirect", ast.unparse(e)
+    if isinstance(e.func, ast.Name) and e.func.id == "ContextVar" and binders == ["from contextvars import ContextVar"]:
+        # a plain constructor call of contextvars.ContextVar: (name) or (name, default=...) - a default
+        # would make every context *bound* from the start
+        if len(e.args) == 1 and not e.keywords:
+            return "direct", ""
+        return "indirect", ast.unparse(e)
+    return "indirect", ast.unparse(e.func)
+
+
+def ctor_facts():
+    tree = _module_tree()
+    binders = context_var_binders(tree)
+    classes = {n.name: n for n in tree.body if isinstance(n, ast.ClassDef)}
+    kinds = {}
+    rebinds = []
+    for cls in ("Local", "LocalStack"):
+        if cls not in classes:
+            raise Untranslatable(f"class {cls} not found in local.py")
+        kinds[cls] = ctor_kind(classes[cls], binders)
+        for n in classes[cls].body:
+            if isinstance(n, (ast.FunctionDef, ast.AsyncFunctionDef)) and n.name != "__init__" and _touches_storage_binding(n):
+                rebinds.append(f"{cls}.{n.name}")
+    # nothing outside the two classes reaches into their storage attribute either
+    for n in tree.body:
+        if not (isinstance(n, ast.ClassDef) and n.name in ("Local", "LocalStack")) and _touches_storage_binding(n):
+            rebinds.append(getattr(n, "name", f"<module statement line {n.lineno}>"))
+    return binders, kinds, rebinds
+
+
+def lean_ctor(k):
+    return ".direct" if k[0] == "direct" else f".indirect {lean_str(k[1])}"
+
+
 @generator("LocalOps")
 def gen_localops():
     progs = translate_all()
     ptest = stack_proxy_test()
+    binders, kinds, rebinds = ctor_facts()
     defs = []
     for cls, meth, lean, paths in progs:
         body = ",\n  ".join("[" + ", ".join(p) + "]" for p in paths)
@@ -273,6 +395,222 @@ def programs : List (String × Prog) := [
 /-- the unbound test of the `LocalStack` closure in `LocalProxy.__init__` -/
 def stackProxyTest : ProxyTest := .{ptest}
 
+/-- how `Local.__init__` obtains its `ContextVar` when none is passed -/
+def localCtor : CtorKind := {lean_ctor(kinds["Local"])}
+
+/-- how `LocalStack.__init__` obtains its `ContextVar` when none is passed -/
+def stackCtor : CtorKind := {lean_ctor(kinds["LocalStack"])}
+
+def constructors : List (String × CtorKind) := [
+  ("Local.__init__", localCtor),
+  ("LocalStack.__init__", stackCtor)]
+
+/-- every statement of local.py that binds the name `ContextVar` -/
+def contextVarBinders : List String := [{", ".join(lean_str(b) for b in binders)}]
+
+/-- functions other than the two constructors that (re)bind or delete a storage attribute -/
+def storageRebinds : List String := [{", ".join(lean_str(b) for b in rebinds)}]
+
 end Wz.Gen.LocalOps
 """
     return write("LocalOps", body, "src/werkzeug/local.py")
+
+
+# ---------------------------------------------------------------------------
+# LocalProxy: the forwarding table and the code every forwarded operation goes through
+
+
+def _strip(fn):
+    """a function definition without docstrings, annotations and comments, as normalised source"""
+    fn = ast.parse(ast.unparse(fn)).body[0]
+    for n in ast.walk(fn):
+        if isinstance(n, (ast.FunctionDef, ast.AsyncFunctionDef)):
+            n.returns = None
+            a = n.args
+            for x in a.posonlyargs + a.args + a.kwonlyargs + ([a.vararg] if a.vararg else []) + ([a.kwarg] if a.kwarg else []):
+                x.annotation = None
+            n.body = [st for st in n.body if not (isinstance(st, ast.Expr) and isinstance(st.value, ast.Constant) and isinstance(st.value.value, str))] or [ast.Pass()]
+        if isinstance(n, ast.AnnAssign) and n.value is None:
+            pass
+    src = ast.unparse(fn)
+    import re as _re
+
+    return _re.sub(r"\s*#\s*type:\s*ignore\S*", "", src)
+
+
+def _method(tree, cls, name):
+    cs = [n for n in tree.body if isinstance(n, ast.ClassDef) and n.name == cls]
+    if len(cs) != 1:
+        raise Untranslatable(f"class {cls} not found")
+    fs = [n for n in cs[0].body if isinstance(n, ast.FunctionDef) and n.name == name]
+    if len(fs) != 1:
+        raise Untranslatable(f"{cls}.{name}: expected exactly one definition, found {len(fs)}")
+    return fs[0]
+
+
+def proxy_closures(tree):
+    """the `_get_current_object` closure of every `isinstance` branch of LocalProxy.__init__, in
+    source order: (branch test, normalised body)"""
+    init = _method(tree, "LocalProxy", "__init__")
+    top_if = [st for st in init.body if isinstance(st, ast.If) and ast.unparse(st.test).startswith("isinstance(local")]
+    if len(top_if) != 1:
+        raise Untranslatable("LocalProxy.__init__: expected one isinstance(local, ...) chain")
+    out = []
+    node = top_if[0]
+    while True:
+        fns = [n for n in node.body if isinstance(n, ast.FunctionDef)]
+        if len(fns) != 1 or fns[0].name != "_get_current_object":
+            raise Untranslatable("LocalProxy.__init__: a branch without exactly one _get_current_object closure: " + ast.unparse(node.test))
+        out.append((ast.unparse(node.test), "; ".join(ln.strip() for ln in _strip(fns[0]).splitlines()[1:])))
+        if len(node.orelse) == 1 and isinstance(node.orelse[0], ast.If):
+            node = node.orelse[0]
+            continue
+        tail = "; ".join(ast.unparse(st) for st in node.orelse)
+        out.append(("else", tail))
+        break
+    # what happens with the closure afterwards, and how `get_name` is chosen
+    rest = ["; ".join(ln.strip() for ln in ast.unparse(st).splitlines()) for st in init.body if st is not top_if[0] and not (isinstance(st, ast.Expr) and isinstance(st.value, ast.Constant))]
+    return out, rest
+
+
+def lookup_table():
+    """every `_ProxyLookup` attribute of the live `LocalProxy` class: (name, is in-place operator
+    wrapper, has a function to re-do the call with, has fallback, is_attr, the fallback evaluated on
+    an unbound proxy (canonical text))"""
+    import importlib
+
+    L = importlib.import_module("werkzeug.local")
+    probe_local = L.Local()
+    p = L.LocalProxy(probe_local, "nothing")
+    rows = []
+    for name, v in vars(L.LocalProxy).items():
+        if not isinstance(v, L._ProxyLookup):
+            continue
+        fb = ""
+        if v.fallback is not None:
+            val = v.fallback.__get__(p, L.LocalProxy)()
+            if val is False:
+                fb = "False"
+            elif val is L.LocalProxy:
+                fb = "LocalProxy"
+            elif val is probe_local:
+                fb = "<the wrapped local>"
+            elif isinstance(val, str) and val == L.LocalProxy.__dict__["__doc__"].class_value:
+                fb = "<the class docstring>"
+            elif isinstance(val, (str, list)):
+                fb = repr(val)
+            else:
+                fb = f"<unexpected {type(val).__name__}>"
+        rows.append((name, type(v) is L._ProxyIOp, v.bind_f is not None, v.fallback is not None, bool(v.is_attr), fb))
+        if type(v) not in (L._ProxyLookup, L._ProxyIOp):
+            raise Untranslatable(f"LocalProxy.{name}: unknown descriptor class {type(v).__name__}")
+    return rows
+
+
+def manager_facts(tree):
+    """release_local / LocalManager.cleanup / make_middleware, normalised"""
+    rl = [n for n in tree.body if isinstance(n, ast.FunctionDef) and n.name == "release_local"]
+    if len(rl) != 1:
+        raise Untranslatable("release_local not found")
+    one = lambda fn: "; ".join(ln.strip() for ln in _strip(fn).splitlines()[1:])  # noqa: E731
+    return [
+        ("release_local", one(rl[0])),
+        ("LocalManager.__init__", one(_method(tree, "LocalManager", "__init__"))),
+        ("LocalManager.cleanup", one(_method(tree, "LocalManager", "cleanup"))),
+        ("LocalManager.make_middleware", one(_method(tree, "LocalManager", "make_middleware"))),
+    ]
+
+
+def manager_forms():
+    """the live `LocalManager` constructor on every argument form: which of the objects passed end up in
+    `.locals` (evaluated inside a scratch context; `L1` holds a value there, `L0` and `S` hold nothing)"""
+    import contextvars
+    import importlib
+
+    L = importlib.import_module("werkzeug.local")
+
+    def run():
+        l0, l1, st = L.Local(), L.Local(), L.LocalStack()
+        l1.x = 1
+        names = {id(l0): "L0", id(l1): "L1", id(st): "S"}
+        forms = [
+            ("LocalManager()", lambda: L.LocalManager()),
+            ("LocalManager(None)", lambda: L.LocalManager(None)),
+            ("LocalManager(<Local, empty here>)", lambda: L.LocalManager(l0)),
+            ("LocalManager(<Local, bound here>)", lambda: L.LocalManager(l1)),
+            ("LocalManager(<LocalStack>)", lambda: L.LocalManager(st)),
+            ("LocalManager([L0, S])", lambda: L.LocalManager([l0, st])),
+            ("LocalManager((L1, S, L0))", lambda: L.LocalManager((l1, st, l0))),
+            ("LocalManager(iter([S, L1]))", lambda: L.LocalManager(iter([st, l1]))),
+            ("LocalManager([])", lambda: L.LocalManager([])),
+            ("LocalManager([L1]) then .locals.append(S)", lambda: _appended(L.LocalManager([l1]), st)),
+        ]
+        out = []
+        for label, mk in forms:
+            try:
+                m = mk()
+                out.append((label, ",".join(names.get(id(x), f"<{type(x).__name__}>") for x in m.locals) or "-"))
+            except Exception as e:  # noqa: BLE001 - the class is the table entry
+                out.append((label, "error:" + type(e).__name__))
+        return out
+
+    def _appended(m, x):
+        m.locals.append(x)
+        return m
+
+    return contextvars.Context().run(run)
+
+
+@generator("LocalProxyTbl")
+def gen_localproxy():
+    forms = manager_forms()
+    fm = ",\n  ".join(f"({lean_str(a)}, {lean_str(b)})" for a, b in forms)
+    tree = _module_tree()
+    rows = lookup_table()
+    closures, rest = proxy_closures(tree)
+    get_src = "; ".join(ln.strip() for ln in _strip(_method(tree, "_ProxyLookup", "__get__")).splitlines()[1:])
+    iop_src = "; ".join(ln.strip() for ln in _strip(_method(tree, "_ProxyIOp", "__init__")).splitlines()[1:])
+    mgr = manager_facts(tree)
+    tb = ",\n  ".join(
+        f"{{ name := {lean_str(n)}, iop := {lb(i)}, hasF := {lb(f)}, hasFallback := {lb(fb)}, isAttr := {lb(a)}, fallback := {lean_str(v)} }}"
+        for n, i, f, fb, a, v in rows
+    )
+    cl = ",\n  ".join(f"({lean_str(t)}, {lean_str(b)})" for t, b in closures)
+    rs = ",\n  ".join(lean_str(r) for r in rest)
+    mg = ",\n  ".join(f"({lean_str(n)}, {lean_str(b)})" for n, b in mgr)
+    body = f"""import WzVerif.Model.LocalIR
+namespace Wz.Gen.LocalProxyTbl
+open Wz.Local
+
+/-- every `_ProxyLookup` / `_ProxyIOp` attribute of the live `LocalProxy` class, in definition order;
+`fallback` is the fallback evaluated on an unbound proxy -/
+def table : List LookupEntry := [
+  {tb}]
+
+/-- `_ProxyLookup.__get__` (docstrings, annotations, comments removed) -/
+def lookupGetSrc : String := {lean_str(get_src)}
+
+/-- `_ProxyIOp.__init__` -/
+def iopInitSrc : String := {lean_str(iop_src)}
+
+/-- the `_get_current_object` closure of every branch of `LocalProxy.__init__` -/
+def closures : List (String × String) := [
+  {cl}]
+
+/-- the other statements of `LocalProxy.__init__` -/
+def initRest : List String := [
+  {rs}]
+
+/-- `release_local`, `LocalManager.__init__/cleanup/make_middleware` -/
+def manager : List (String × String) := [
+  {mg}]
+
+/-- the live `LocalManager` constructor on every argument form: the objects that end up in `.locals`
+(`L0`: a `Local` that is empty in the constructing context, `L1`: a `Local` that holds a value there,
+`S`: a `LocalStack`) -/
+def managerForms : List (String × String) := [
+  {fm}]
+
+end Wz.Gen.LocalProxyTbl
+"""
+    return write("LocalProxyTbl", body, "src/werkzeug/local.py")
